@@ -166,7 +166,7 @@ def check(run: Run) -> None:
     import re as _re
 
     Ir = Interp(model)
-    TP = "zorg.domain.types.TodoPayload"
+    TP = "zorg.domain.models._page.TodoPayload"
     for m in members:
         for prio in ("P3", "P8"):
             str_ = State()
